@@ -57,22 +57,41 @@ def run(ctx):
     if multi and any(x in (float("inf"), float("-inf")) for x in alphabet):
         alphabet = [1, 2, 3]  # inf - inf is NaN in a signed-sum aggregate: outside the property's premise (no NaN fitness)
     table = {}
+    # the Python / numpy type in which the user's fitness function hands back its number (the library converts with float())
+    integral = all(float(x).is_integer() for x in alphabet if x not in (float("inf"), float("-inf"))) and not any(x in (float("inf"), float("-inf")) for x in alphabet)
+    small_unsigned = integral and all(0 <= x <= 255 for x in alphabet)
+    rtype = H.pick(["float", "float", "int", "np.float64", "np.float32", "np.int64", "np.int8", "np.uint8", "np.uint64", "bool"])
+    if (rtype in ("int", "np.int64") and not integral) or (rtype == "np.int8" and not (integral and all(-128 <= x <= 127 for x in alphabet))) \
+            or (rtype in ("np.uint8", "np.uint64") and not small_unsigned) or (rtype == "bool" and not all(x in (0, 1) for x in alphabet)) \
+            or (rtype == "np.float32" and not integral):
+        rtype = "float"
 
     def value(g):
         if g not in table:
             table[g] = alphabet[(g * 2654435761 >> 7) % len(alphabet)]
         return float(table[g])
 
+    def returned(x):
+        if rtype == "float":
+            return x
+        if rtype == "int":
+            return int(x)
+        if rtype == "bool":
+            return bool(x)
+        import numpy as np
+
+        return getattr(np, rtype[3:])(x)
+
     if multi:
         scalar = bool(H.draw(2))  # `minimize` given as one bool for all objectives (resolved lazily at the first evaluation)
         mins = [minimize, minimize] if scalar else [minimize, not minimize]
-        problem = MultiObjectiveProblem(minimize if scalar else mins, lambda p: [value(p.v), value(p.v + 1)])
+        problem = MultiObjectiveProblem(minimize if scalar else mins, lambda p: [returned(value(p.v)), returned(value(p.v + 1))])
 
         def agg(g):
             c = [value(g), value(g + 1)]
             return sum(-x if m else x for x, m in zip(c, mins))
     else:
-        problem = SingleObjectiveProblem(lambda p: value(p.v), minimize=minimize)
+        problem = SingleObjectiveProblem(lambda p: returned(value(p.v)), minimize=minimize)
 
         def agg(g):
             return -value(g) if minimize else value(g)
@@ -109,7 +128,8 @@ def run(ctx):
         else:
             popn = members
         ctx.sample = {"population": [m.genotype for m in members], "values": [value(m.genotype) for m in members], "k": k,
-                      "minimize": minimize, "form": form, "multi_objective": multi}
+                      "minimize": minimize, "form": form, "multi_objective": multi, "fitness_return_type": rtype}
+        ctx.log("direct", [m.genotype for m in members], k, form, minimize, multi, rtype, pre)
         try:
             out = list(ElitismStep().apply(problem, evaluator, rep, rnd, popn, k, 1))
         except Exception as e:
@@ -151,9 +171,14 @@ def run(ctx):
     we = H.pick([1, 1, 5, 10, 50])
     wn = H.pick([0, 1, 5])
     wr = H.pick([1, 10, 90])
-    step = ParallelStep([ProbedElitism(), NoveltyStep(),
-                         SequenceStep(TournamentSelection(1 + H.draw(5)), GenericCrossoverStep(H.pick([0.0, 0.5, 1.0])), GenericMutationStep(H.pick([0.5, 1.0])))],
-                        weights=[we, wn, wr])
+    from geneticengine.algorithms.gp.operators.selection import LexicaseSelection
+
+    lexicase = multi and bool(H.draw(2))
+    sel = LexicaseSelection() if lexicase else TournamentSelection(1 + H.draw(5))
+    branches = [(ProbedElitism(), we), (NoveltyStep(), wn),
+                (SequenceStep(sel, GenericCrossoverStep(H.pick([0.0, 0.5, 1.0])), GenericMutationStep(H.pick([0.5, 1.0]))), wr)]
+    order = H.permutation(3)  # the elitism slot may be listed before or after the other members
+    step = ParallelStep([branches[i][0] for i in order], weights=[branches[i][1] for i in order])
     gens = 4 + H.draw(6)
     best_by_gen = {}
 
@@ -173,7 +198,8 @@ def run(ctx):
             return self.calls > gens
 
     tracker = (MultiObjectiveProgressTracker if multi else SingleObjectiveProgressTracker)(problem, evaluator, recorders=[Rec()])
-    ctx.sample = {"gp_population": pop, "weights": [we, wn, wr], "generations": gens, "minimize": minimize, "multi_objective": multi}
+    ctx.sample = {"gp_population": pop, "weights": [we, wn, wr], "member_order": [["elitism", "novelty", "breed"][i] for i in order], "lexicase": lexicase,
+                  "generations": gens, "minimize": minimize, "multi_objective": multi, "fitness_return_type": rtype}
     try:
         GeneticProgramming(problem=problem, budget=GenBudget(), representation=rep, random=rnd, tracker=tracker, population_size=pop, step=step).search()
     except Exception as e:
